@@ -13,7 +13,9 @@ NaN keys are covered).
 Stages of DESIGN.md §4 C06: (1) no growth, (2) growth incl. same-size growth, (3) delete with the emptyRest
 back-propagation, (4) clear are PROVED here for every table state and every history; (5) iteration is stated
 (`IterationSpec`) and is FALSE for the code as it is (`iteration_counterexample`); proved parts: empty maps
-(`iteration_partial_empty*`) and "no deleted entry" while the table does not grow (`iteration_partial_stable`).
+(`iteration_partial_empty*`), "no deleted entry" while the table does not grow (`iteration_partial_stable`), and
+the complete loop over a table that is neither growing nor mutated: every entry exactly once, then it stops
+(`iteration_stable_complete`).
 -/
 namespace LlgoVerif.HMap
 open LlgoVerif.AssocList
@@ -251,6 +253,54 @@ theorem iteration_partial_stable {o : Ops K} {h : HMap K V} (hw : WF o h) (hold 
   mapiternext_yields_live hw hold hic e
 
 example (h : HMap (Nat × Bool) Nat) : IterCur h { gen := h.gen } := ⟨rfl, rfl, fun _ e => by cases e⟩
+
+/-- **Stage 5 without growth and without mutation, complete**: for every table with the invariant that is not
+    growing (`h.old = none`), every start bucket and start offset (`fastrand` is arbitrary: it is part of `h`), a
+    whole range loop — `mapiterinit`, then `mapiternext` until it returns no key (`iterAll`, given at least
+    `count + 1` steps) — terminates without the model running out of fuel and yields every entry of the table
+    EXACTLY once: the list of yielded pairs is a permutation of `abs h`.  Proved by induction over the bucket walk
+    (`startBucket`, `wrapped`, wrap-around at `2^B`), the overflow-chain walk and the offset-rotated cell scan
+    (`iterLoop_walk`, `restChains_step`, `cy_perm`, `byf_perm` in the lemmas). -/
+theorem iteration_stable_complete {o : Ops K} {h : HMap K V} (hi : Inv o h) (hold : h.old = none) {n : Nat}
+    (hn : h.count < n) : ∃ ys, iterAll o h n = .ok ys ∧ ys.Perm (abs h) := by
+  rcases hi with hw | hl
+  · exact iterAll_spec hw hold hn
+  · refine ⟨[], ?_, by rw [abs_lazy hl]⟩
+    simp [iterAll, mapiterinit, hl.count, pure, Except.pure]
+
+/-- one step of that loop, from any position the walk can be in (`PosOK`): `mapiternext` either ends the loop and
+    nothing was left to yield, or yields the head of the remaining entries `remOf` and leaves exactly the tail -/
+theorem iteration_stable_step {o : Ops K} {h : HMap K V} (hw : WF o h) (hold : h.old = none) {it : Iter K V}
+    (hp : PosOK h it it.bucket it.bptr it.i) (hcb : it.checkBucket = none) :
+    ∃ it', mapiternext o h it = .ok it' ∧
+      ((it'.key = none ∧ remOf h it.offset it.startBucket it.wrapped it.bucket it.bptr it.i = []) ∨
+       (∃ k v, it'.key = some k ∧ it'.elem = some v ∧ it'.checkBucket = none ∧
+          it'.startBucket = it.startBucket ∧ it'.offset = it.offset ∧
+          PosOK h it' it'.bucket it'.bptr it'.i ∧
+          remOf h it.offset it.startBucket it.wrapped it.bucket it.bptr it.i =
+            (k, v) :: remOf h it.offset it.startBucket it'.wrapped it'.bucket it'.bptr it'.i)) :=
+  mapiternext_walk hw hold hp hcb
+
+/-- **Stage 5 with deletions between the steps, no growth — "no deleted entry"**: a loop whose body deletes arbitrary
+    keys between the iteration steps (`runDelLoop`: `none` = `mapiternext`, `some k` = `delete(m, k)`), started from
+    any iterator that walks the current array (`IterCur`; `iteration_init_stable` provides it for a fresh loop),
+    yields only pairs that are entries of the table at the moment they are yielded.
+    NOT proved for such loops: "no key twice" and "every key present for the whole loop is yielded". -/
+theorem iteration_delete_yields_live {o : Ops K} (ho : HashOK o) (steps : List (Option K)) (h : HMap K V) (it : Iter K V)
+    (ys : List ((K × V) × HMap K V)) (hw : WF o h) (hold : h.old = none) (hic : IterCur h it)
+    (e : runDelLoop o h it steps = .ok ys) : ∀ y ∈ ys, y.1 ∈ abs y.2 :=
+  runDelLoop_yields_live ho steps h it ys hw hold hic e
+
+/-- `mapiterinit` on a non-empty table that is not growing returns an iterator with `IterCur`; its first entry is an
+    entry of the table; the table stands for the same map afterwards -/
+theorem iteration_init_stable {o : Ops K} {h h' : HMap K V} {it : Iter K V} (hw : WF o h) (hold : h.old = none)
+    (hc : h.count ≠ 0) (e : mapiterinit o h = .ok (it, h')) :
+    WF o h' ∧ h'.old = none ∧ abs h' = abs h ∧ IterCur h' it ∧
+      ∀ k v, it.key = some k → it.elem = some v → (k, v) ∈ abs h' :=
+  mapiterinit_stable hw hold hc e
+
+example : ∃ ys, iterAll cxOps (makemap 0 {} : HMap (Nat × Bool) Nat) 1 = .ok ys ∧ ys.Perm (abs (makemap 0 {} : HMap (Nat × Bool) Nat)) :=
+  iteration_stable_complete (makemap_spec cxOps 0 {}).1 rfl (by decide)
 
 /-! ### the counterexample (keys: a number and a "is NaN" flag; NaN keys are equal to nothing) -/
 
